@@ -87,7 +87,10 @@ Definition corr (c : case) : bool :=
       implb ev (valid_all h) &&
       match to_model h, obs with
       | None, None => true
-      | Some m, Some o => region_eqb (canon port_eqb Z.eqb m) (canon N.eqb N.eqb o)
+      | Some m, Some o =>
+          region_eqb (canon port_eqb Z.eqb m) (canon N.eqb N.eqb o) &&
+          (* the clauses that are not (fully) theorems are also evaluated on the model's module *)
+          (if valid_all h then order_hints_complete_and_keyed h m else true)
       | _, _ => false
       end
   end.
